@@ -324,6 +324,8 @@ fn dfs(w: &World, b: &Bounds, skew: &[u64], trail: &mut Vec<Ev>, dups: usize, se
 
 pub fn run(tier: Tier) -> Stats {
     let mut total = Stats::default();
+    let started = std::time::Instant::now();
+    let _ = &started;
     let configs: Vec<(usize, Vec<u64>)> = if tier.is_thorough() {
         vec![(2, vec![0, 0]), (2, vec![0, 20]), (2, vec![20, 0]), (3, vec![0, 20, 0])]
     } else {
@@ -345,10 +347,10 @@ pub fn run(tier: Tier) -> Stats {
             max_ops: if n == 3 { 3 } else { 4 },
             max_purges: tier.pick(1, 2),
             max_repairs: if n == 3 { 2 } else { tier.pick(2, 3) },
-            horizon_steps: tier.pick(5, 7),
+            horizon_steps: tier.pick(5, 6),
             max_dup_deliveries: tier.pick(0, 1),
         };
-        let max_events = tier.pick(14, 15);
+        let max_events = tier.pick(14, 13);
         // shard on the first two events
         let root = World::new(n, &skew);
         let mut prefixes: Vec<Vec<Ev>> = Vec::new();
@@ -378,6 +380,9 @@ pub fn run(tier: Tier) -> Stats {
             total.merge(p);
         }
         total.add("cluster_configs", 1);
+        if std::env::var("VERIF_PROGRESS").is_ok() {
+            eprintln!("[C08 cluster] config n={n} skew={skew:?} done: transitions so far {}", total.get("transitions"));
+        }
     }
     total.sample(|| {
         case_json(
